@@ -5,7 +5,7 @@ Never commits anything in /repo.  usage: mutation_matrix.py [<id>...]"""
 import json, os, re, subprocess, sys, time
 
 ROOT = "/verif"
-EXTRA = {"C16-a": ["C09"], "C17-a": ["C03"], "C12-a": [], "C14-a": []}
+EXTRA = {"C16-a": ["C09"], "C17-a": ["C03"], "C01-b": ["C10"], "C17-b": ["C15"], "C06-b": ["C08"]}
 
 
 def sh(cmd, **kw):
@@ -46,7 +46,8 @@ def main():
                 sh("git -C /repo checkout -- .")
                 sh(f"rm -f {ROOT}/replays/*/*-[0-9].replay {ROOT}/replays/*/*-[0-9][0-9].replay")
         meta = {
-            "id": mid, "property": prop, "origin": "fresh sub-agent given only the property text and its own scratch worktree of /repo",
+            "id": mid, "property": prop,
+            "origin": open(f"{d}/origin.txt").read().strip() if os.path.exists(f"{d}/origin.txt") else "fresh sub-agent given only the property text and its own scratch worktree of /repo",
             "files_changed": re.findall(r"^\+\+\+ b/(\S+)", open(f"{d}/patch.diff").read(), re.M),
             "change": section(md, "Change"), "needs_to_manifest": section(md, "Needed to manifest", "What is needed to manifest", "Needs"),
             "independent_confirmation": {"script": "tools/confirm_mutation.sh (suite with the patch, demo with and without it)", "result": confirm},
